@@ -42,7 +42,41 @@ META = {
 }
 
 
+def min_duration_scope_rule(ctx: Ctx, rid: str):
+    """The minimum duration of collectIntervals applies to the length of a RUN (measured before clipping), never to the length of the
+    query window: no return of an empty result is taken under a test that involves the minimum duration -- a long run overlapping a
+    narrow window must still be reported, clipped."""
+    from .common import facts_of
+    from ..cfg import cfg_of
+    fn = ctx.repo.func("Scoreboard.collectIntervals")
+    g = cfg_of(fn)
+    facts = facts_of(fn)
+    res = local_resolver(fn.node) if "local_resolver" in globals() else None
+    mins = {p for p in fn.params if "min" in p.lower()}
+    for a in own_nodes(fn):
+        if isinstance(a, (ast.Assign, ast.AnnAssign)) and a.value is not None and any(isinstance(x, ast.Name) and x.id in mins for x in ast.walk(a.value)):
+            for t in (a.targets if isinstance(a, ast.Assign) else [a.target]):
+                if isinstance(t, ast.Name):
+                    mins.add(t.id)
+    if not mins:
+        raise AnchorMissing("collectIntervals: minimum-duration parameter not found")
+    n = 0
+    for node in g.nodes:
+        r = node.ast
+        if not (node.kind == "stmt" and isinstance(r, ast.Return) and r.value is not None and isinstance(r.value, (ast.List, ast.Tuple)) and not r.value.elts):
+            continue
+        n += 1
+        involved = sorted({t for cl in facts.at(node) for (t, _p) in cl if any(m in t for m in mins)})
+        ctx.ob(rid, f"{fn.qual}: empty result at line {r.lineno}", (fn, r), not involved,
+               "not decided by the minimum duration" if not involved else
+               f"an empty result is returned under {involved}: the minimum duration is compared with something other than the length of a run, so "
+               "a run longer than the minimum is dropped when the window it is clipped to is shorter",
+               key=key_of(rid, fn, None, f"empty return {n}"))
+    ctx.ob(rid, f"{fn.qual}: {n} early empty returns, none decided by {sorted(mins)}", fn, True, "minimum duration is a property of runs", nontrivial=False)
+
+
 def run_extra(ctx: Ctx):
+    min_duration_scope_rule(ctx, "R17.7")
     # ---------------------------------------------------------------- R17.6 conversions are not answered from stale or lossy memos
     from .common import process_state_rule
     process_state_rule(ctx, "R17.6", [ctx.repo.func(q) for q in ("Project.dateToIdx", "Project.idxToDate", "Scoreboard.dateToIdx", "Scoreboard.idxToDate",
